@@ -272,6 +272,14 @@ Qed.
 
 (* ------------------------------------------------------------------ one bulk *)
 
+Lemma in_first_new K ms i : In i (map m_id (first_new K ms)) <-> In i (map m_id ms) /\ old_in K i = false.
+Proof.
+  unfold first_new. rewrite !in_map_iff. split.
+  - intros (m & <- & Hm). apply filter_In in Hm. destruct Hm as [Hm Hn]. split; [exists m; auto|].
+    destruct (old_in K (m_id m)); [discriminate|reflexivity].
+  - intros [(m & <- & Hm) Ho]. exists m. split; auto. apply filter_In. rewrite Ho. auto.
+Qed.
+
 Lemma kept_toks K blk ms : forall o prev,
   map snd (filter (fun v : dview => negb (old_in K (fst (fst v)))) (sent_view_from blk o prev ms))
   = map m_toks (first_new K ms).
@@ -373,12 +381,103 @@ Proof.
   - rewrite (ii_from a K I), Hmin', min_mid_ids, Hkids, map_app. apply min_of_app.
   - rewrite (ii_to a K I), Hmax', max_mid_ids, Hkids, map_app. apply max_of_app.
   - intros i. rewrite B, map_app, in_app_iff, (ii_keys a K I i).
-    unfold first_new. rewrite (filter_map_comm m_id (fun i => negb (old i)) ms), filter_In.
-    rewrite Hids, (sent_view_ids blk ms 0%N (blk, 0%N)).
-    split; intros [X|[X Y]]; auto; right; split; auto; [rewrite Y; reflexivity|destruct (old i); [discriminate|reflexivity]].
+    rewrite in_first_new. rewrite Hids. unfold sent_view. rewrite sent_view_ids. fold (old i). tauto.
   - intros i p Hl. rewrite app_length. simpl. destruct (C i p Hl) as [X|X].
     + pose proof (ii_blk a K I i p X). lia.
     + destruct (Hin i p X) as (v & Hv & Ev).
       pose proof (sent_view_block blk ms 0%N (blk, 0%N) v eq_refl Hv) as Hb. rewrite Ev in Hb. simpl in Hb.
       fold blk. lia.
+Qed.
+
+(* ------------------------------------------------------------------ histories *)
+
+Definition ref_step_m (K ms : list meta) : list meta := K ++ first_new K ms.
+
+Lemma index_empty : index_is active_empty [].
+Proof.
+  constructor; simpl; try reflexivity.
+  - intros i. split; [intros H; apply H; reflexivity|tauto].
+  - intros i p H. discriminate.
+Qed.
+
+Lemma run_index_gen h : forall a K, index_is a K -> Forall (fun b => bulk_ok (map fst b)) h ->
+  index_is (fold_left process_bulk h a) (fold_left ref_step_m (map (map fst) h) K).
+Proof.
+  induction h as [|b h IH]; intros a K I F; simpl; [exact I|].
+  inversion F; subst. apply IH; [|assumption]. apply process_bulk_index; assumption.
+Qed.
+
+(* thm: the index of the fraction is exactly the first deliveries *)
+Lemma run_index h : Forall (fun b => bulk_ok (map fst b)) h ->
+  index_is (run_active h) (first_deliveries (map (map fst) h)).
+Proof. intros F. apply (run_index_gen h active_empty [] index_empty F). Qed.
+
+Lemma first_new_idem K ms : first_new K (first_new K ms) = first_new K ms.
+Proof.
+  unfold first_new. induction ms as [|m ms IH]; simpl; [reflexivity|].
+  destruct (negb (old_in K (m_id m))) eqn:E; simpl; [rewrite E, IH|]; auto.
+Qed.
+
+Lemma fold_dedup h : forall K, fold_left ref_step_m (dedup_from K h) K = fold_left ref_step_m h K.
+Proof.
+  induction h as [|ms h IH]; intros K; simpl; [reflexivity|].
+  unfold ref_step_m at 2 4. rewrite first_new_idem. apply IH.
+Qed.
+
+Lemma fold_concat h : forall K, fold_left ref_step_m h K = K ++ concat (dedup_from K h).
+Proof.
+  induction h as [|ms h IH]; intros K; simpl; [rewrite app_nil_r; reflexivity|].
+  rewrite IH. unfold ref_step_m. rewrite <- app_assoc. reflexivity.
+Qed.
+
+Lemma first_deliveries_concat h : first_deliveries h = concat (dedup_first h).
+Proof. exact (fold_concat h []). Qed.
+
+Lemma first_deliveries_dedup h : first_deliveries (dedup_first h) = first_deliveries h.
+Proof. exact (fold_dedup h []). Qed.
+
+(* the same on bulks that carry the document bytes *)
+Fixpoint dedupb_from (K : list meta) (h : list (list (meta * N))) : list (list (meta * N)) :=
+  match h with
+  | [] => []
+  | b :: r => let nb := filter (fun p => negb (old_in K (m_id (fst p)))) b in
+              nb :: dedupb_from (K ++ map fst nb) r
+  end.
+Definition dedupb (h : list (list (meta * N))) : list (list (meta * N)) := dedupb_from [] h.
+
+Lemma dedupb_metas h : forall K, map (map fst) (dedupb_from K h) = dedup_from K (map (map fst) h).
+Proof.
+  induction h as [|b h IH]; intros K; simpl; [reflexivity|].
+  assert (E : map fst (filter (fun p : meta * N => negb (old_in K (m_id (fst p)))) b) = first_new K (map fst b)).
+  { unfold first_new. rewrite (filter_map_comm fst (fun m => negb (old_in K (m_id m)))). reflexivity. }
+  rewrite E, IH. reflexivity.
+Qed.
+
+(* thm:C17_idempotent *)
+Lemma idempotent h :
+  Forall (fun b => bulk_ok (map fst b)) h -> Forall (fun b => bulk_ok (map fst b)) (dedupb h) ->
+  let a := run_active h in let a' := run_active (dedupb h) in
+  a_ids a = a_ids a' /\ (forall t, tok_lids a t = tok_lids a' t) /\
+  a_total a = a_total a' /\ a_from a = a_from a' /\ a_to a = a_to a'.
+Proof.
+  intros F F' a a'.
+  pose proof (run_index h F) as I. pose proof (run_index (dedupb h) F') as I'.
+  unfold dedupb in I'. rewrite dedupb_metas in I'. fold (dedup_first (map (map fst) h)) in I'.
+  rewrite first_deliveries_dedup in I'. fold a in I. fold (dedupb h) in I'. fold a' in I'.
+  destruct I, I'. repeat split; try congruence. intros t. rewrite ii_tok0, ii_tok1. reflexivity.
+Qed.
+
+(* the search-level observables of a fraction are functions of the LID table and the postings *)
+Lemma search_frac_ext iv gt a a' t :
+  a_ids a = a_ids a' -> (forall t, tok_lids a t = tok_lids a' t) ->
+  search_frac iv gt a t = search_frac iv gt a' t.
+Proof.
+  intros E T. unfold search_frac.
+  assert (L : lid_id a = lid_id a') by (unfold lid_id; rewrite E; reflexivity).
+  rewrite L, (T t).
+  assert (X : forall l, map (fun g => (g, N.of_nat (length (filter (fun l0 => mem_nat l0 (tok_lids a g)) l)))) gt
+                      = map (fun g => (g, N.of_nat (length (filter (fun l0 => mem_nat l0 (tok_lids a' g)) l)))) gt).
+  { intros l. apply map_ext. intros g. rewrite (T g). reflexivity. }
+  rewrite X. f_equal. f_equal. f_equal. apply filter_ext. intros l. f_equal. f_equal.
+  induction gt as [|g gt IH]; simpl; [reflexivity|]. rewrite (T g), IH. reflexivity.
 Qed.
